@@ -56,7 +56,7 @@ def joinFragments (fragments : List Bytes) (size : Nat) : Bytes :=
   j.take size ++ List.replicate (size - j.length) 0
 
 /-- `d.fragments = append(d.fragments, data)` unless the fragment carries no data (/repo fix
-fc590d9: empty fragments are accepted but not stored) -/
+f1b05d6: empty fragments are accepted but not stored) -/
 def pushFrag (fs : List Bytes) (data : Bytes) : List Bytes :=
   if data.length = 0 then fs else fs ++ [data]
 
